@@ -19,7 +19,9 @@ MODULE = 'PyTough.Props.C18'
 TARGETS = ['PyTough.Props.C18', 'drv_c18']
 THEOREMS = ['Props.C18.' + t for t in [
     'surface_recovery', 'surface_recovery_above_top', 'missing_direction_spacing',
-    'direction_track_sizes', 'next_block_unique', 'find_surface_on_line', 'rectangle_half_width', 'rotation_inverse']]
+    'direction_track_sizes', 'next_block_unique', 'find_surface_on_line', 'rectangle_half_width', 'rotation_inverse',
+    'rectgeo_spacings_partial', 'rectgeo_spacings_2d_partial', 'line_sizes_are_widths', 'surfaces_recovered_partial',
+    'snap_keeps_surface', 'origin_recovered']]
 LEVEL_TEXT = ('Partial proof: Lean theorems about the executable model of rectgeo for the three core steps (the surface formula inverts '
               'block_centre/block_volume for a surface inside a layer and above the top layer; the spacing of a single-block direction is '
               'volume / product of the doubled distances; following a direction along a line of blocks visits exactly that line with a unique '
@@ -538,9 +540,18 @@ def run(ctx, scale=1.0, oracle_only=False):
                     h = res.hyp.setdefault('isLine (unique candidate at every step) on the direction-%d spacing track' % (k + 1), [0, 0])
                     h[0] += 1 if bit == '1' else 0
                     h[1] += 1
+                if tag == 'mem' and not rec['angle'] and not rec.get('boundary'):
+                    # conclusions of the composition theorems, checked exactly on the model for unrotated grids
+                    h = res.hyp.setdefault('model: spacings returned = generating spacings, exactly (unrotated in-memory cases)', [0, 0])
+                    h[0] += 1 if r.spacings == [[F(x) for x in rec['dx']], [F(x) for x in rec['dy']], [F(x) for x in rec['dz']]] else 0
+                    h[1] += 1
+                    h = res.hyp.setdefault('model: surfaces returned = generating surfaces, exactly (unrotated in-memory cases)', [0, 0])
+                    exp_surf = (rec.get('_expected') or ([], set()))[0]
+                    h[0] += 1 if [c[3] for c in r.columns] == [F(x) for x in exp_surf] else 0
+                    h[1] += 1
                 if True:
                     h = res.hyp.setdefault('model: fromgeo(rectgeo(T), blockmap) regenerates T (names, volumes, connections; in-memory cases, 1e-9)', [0, 0])
-                    if tag == 'mem':
+                    if tag == 'mem' and not rec.get('boundary'):      # (boundary variants reorder or drop blocks)
                         h[0] += 1 if r.regen == '11111' else 0
                         res.count('model-regeneration:' + r.regen)
                         h[1] += 1
